@@ -75,7 +75,8 @@ fn check_interrupted_reads(bytes: &[u8], reference: &Beatmap, t: &mut Tape) -> R
     let n = 1 + t.below(12);
     let interrupts: Vec<u64> = (0..n).map(|_| 1 + t.below(80) as u64).collect();
     let chunk = 1 + t.below(40);
-    let sched = Schedule { chunks: vec![chunk], interrupts: interrupts.clone() };
+    let burst = if t.chance(25) { Some((1 + t.below(400) as u64, *t.pick(&[2u64, 40, 1100, 3000]))) } else { None };
+    let sched = Schedule { chunks: vec![chunk], interrupts: interrupts.clone(), burst };
     let buffered = t.chance(40);
     let res = catch_unwind(AssertUnwindSafe(|| {
         if buffered {
@@ -86,9 +87,9 @@ fn check_interrupted_reads(bytes: &[u8], reference: &Beatmap, t: &mut Tape) -> R
     }));
     match res {
         Err(p) => Err(format!("decode panicked under Interrupted: {}", panic_message(&p))),
-        Ok(Err(e)) => Err(format!("transient Interrupted at calls {:?} surfaced as Err({e})", interrupts)),
+        Ok(Err(e)) => Err(format!("transient Interrupted at calls {:?} / burst {:?} surfaced as Err({e})", interrupts, burst)),
         Ok(Ok(m)) => match full_diff(reference, &m) {
-            Some(d) => Err(format!("Interrupted at calls {:?} (chunk {chunk}, buffered {buffered}) changed the result: {d}", interrupts)),
+            Some(d) => Err(format!("Interrupted at calls {:?} / burst {:?} (chunk {chunk}, buffered {buffered}) changed the result: {d}", interrupts, burst)),
             None => Ok(()),
         },
     }
@@ -241,6 +242,51 @@ pub fn run(ctx: &mut Ctx) {
         })
     });
 
+    // ---- Interrupted bursts at every call: a long run of transient results is still transparent ----
+    {
+        let targets: Vec<usize> = {
+            let mut v: Vec<usize> = (0..files.len()).filter(|i| files[*i].1[0].len() <= 700).take(3).collect();
+            v.push(files.len() - 1); // the generated file with 0x0A / 0x0D bytes inside UTF-16 units
+            v
+        };
+        let mut plan: Vec<(usize, usize, u64, u64, usize)> = vec![];
+        for &fi in &targets {
+            for ei in 0..4 {
+                let len = files[fi].1[ei].len() as u64;
+                for chunk in [1usize, 2] {
+                    let calls = len / chunk as u64 + 8;
+                    let step = if quick { 1 + calls / 400 } else { 1 };
+                    let mut c = 1;
+                    while c <= calls {
+                        for n in [1u64, 1100] {
+                            plan.push((fi, ei, c, n, chunk));
+                        }
+                        c += step;
+                    }
+                }
+            }
+        }
+        let n = plan.len() as u64;
+        ctx.enumerate("Interrupted bursts (file x encoding x first call x length {1, 1100} x chunk {1, 2})", n, |i, st| {
+            let (fi, ei, c, len, chunk) = plan[i as usize];
+            let bytes = &files[fi].1[ei];
+            st.eval();
+            st.nontrivial_distinct();
+            let reference = rosu_map::from_bytes::<Beatmap>(bytes).map_err(|e| Fail::new(format!("from_bytes error {e}"), "osu", bytes.clone()))?;
+            let sched = Schedule { chunks: vec![chunk], interrupts: vec![], burst: Some((c, len)) };
+            let res = catch_unwind(AssertUnwindSafe(|| Beatmap::decode(&mut Scripted::new(bytes, sched.clone()))));
+            let what = || json!({"file": files[fi].0, "encoding": ENCS[ei].name(), "burst_first_call": c, "burst_len": len, "chunk": chunk});
+            match res {
+                Err(p) => Err(Fail::json(format!("decode panicked under an Interrupted burst: {}", panic_message(&p)), &what())),
+                Ok(Err(e)) => Err(Fail::json(format!("a burst of {len} Interrupted results from call {c} on surfaced as Err({e}) ({:?})", e.kind()), &what())),
+                Ok(Ok(m)) => match full_diff(&reference, &m) {
+                    Some(d) => Err(Fail::json(format!("a burst of {len} Interrupted results from call {c} on changed the result: {d}"), &what())),
+                    None => Ok(()),
+                },
+            }
+        });
+    }
+
     // ---- writer faults ----
     let maps: Vec<(String, Beatmap, Vec<u8>)> = bundled()
         .iter()
@@ -342,6 +388,23 @@ pub fn replay(_ctx: &mut Ctx, ext: &str, bytes: &[u8]) -> Result<Option<String>,
     // a plain file: every offset x kind on the read side, every offset on the write side
     let data: Vec<u8> = if ext == "json" {
         let v: Value = serde_json::from_slice(bytes).map_err(|e| Fail::new(format!("bad JSON {e}"), "json", bytes.to_vec()))?;
+        if let (Some(c), Some(len)) = (v["burst_first_call"].as_u64(), v["burst_len"].as_u64()) {
+            // an Interrupted burst on a bundled file (the generated file is not replayable by name)
+            let name = v["file"].as_str().unwrap_or("");
+            if let Some(b) = bundled().iter().find(|b| b.name == name) {
+                let enc = ENCS.iter().copied().find(|e| Some(e.name()) == v["encoding"].as_str()).unwrap_or(ENCS[0]);
+                let data = encode_text(&b.text, enc);
+                let reference = rosu_map::from_bytes::<Beatmap>(&data).map_err(|e| Fail::new(format!("from_bytes error {e}"), "osu", data.clone()))?;
+                let sched = Schedule { chunks: vec![v["chunk"].as_u64().unwrap_or(1) as usize], interrupts: vec![], burst: Some((c, len)) };
+                return match Beatmap::decode(&mut Scripted::new(&data, sched)) {
+                    Err(e) => Err(Fail::new(format!("a burst of {len} Interrupted results from call {c} on surfaced as Err({e})"), "json", bytes.to_vec())),
+                    Ok(m) => match full_diff(&reference, &m) {
+                        Some(d) => Err(Fail::new(format!("the burst changed the result: {d}"), "json", bytes.to_vec())),
+                        None => Ok(None),
+                    },
+                };
+            }
+        }
         let name = v["file"].as_str().unwrap_or("");
         let Some(b) = bundled().iter().find(|b| b.name == name) else {
             return Err(Fail::new("unknown bundled file", "json", bytes.to_vec()));
